@@ -57,8 +57,8 @@ def rule_a(prog, rep):
             ctors = [(nd, anc) for nd, anc in walk(arm['body']) if ctor_name(nd) and 'ClientWriteCommand::' in ctor_name(nd)]
             good = False
             for nd, anc in ctors:
-                g = [it for it in guards(anc + (nd,)) if it[0] == 'if' and it[2] is True]
-                good = good or any(c11._sys_guard_ok(it[1], b, f'#{sv}.0') for it in g)
+                g = [it for it in guards(anc + (nd,)) if it[0] == 'if']
+                good = good or any(c11._sys_guard_ok(it[1], b, f'#{sv}.0', it[2]) for it in g)
             if good:
                 rep.ok('C12.a', f'forward_api_call:{sv}:guard', f'{f.file}:{arm.get("ln")}', '$SYS keys pass when filter_sys = false')
             else:
